@@ -172,7 +172,6 @@ def blake_cases(tier, rng):
         for L in sorted(bits):
             for extra in ((0,) if quick else (0, 1, bb)):         # M may be longer than the bits used
                 M = rb(rng, (L + 7) // 8 + extra)
-                if L == 0 and len(M) > 0: continue                 # explicit bitlen 0: known finding, see below
                 yield 'blake %d 0 %s %d' % (n, hx(M), L), 'blake.bitlen'
                 if extra == 0: yield 'blake.trace %d 0 %s %d' % (n, hx(M), L), 'blake.trace'
         # --- salts
@@ -193,6 +192,7 @@ def blake_cases(tier, rng):
                     M = rb(rng, l)
                     yield 'blake.pre %d %d %d %s' % (n, rng.getrandbits(5), pre, hx(M)), 'blake.preset'
                     yield 'blake.trace %d %d %s None' % (n, pre, hx(M)), 'blake.trace.preset'
+                    if l: yield 'blake.trace %d %d %s %d' % (n, pre, hx(M), 8 * l - 5), 'blake.trace.preset'
         # --- seeded random
         for _ in range(12 if quick else 300):
             l = rng.randrange(0, 5 * bb)
@@ -205,9 +205,10 @@ def blake_cases(tier, rng):
     yield 'blake 257 0 x00 None', 'blake.malformed'
     yield 'blake 128 0 x00 None', 'blake.malformed'
     yield 'blake 256 0 x None', 'blake.len'
-    # explicit bitlen=0 with a non-empty message (<= one block works by accident, longer ones raise): known finding
-    yield "blake 256 0 x616263 0", "blake.bitlen0"
-    yield "blake 256 0 x%s 0" % ("61" * 65), "blake.bitlen0"
+    # explicit bitlen=0 with a non-empty message hashes the empty message
+    for n in SIZES:
+        for l in (3, blk(n), blk(n) + 1, 2 * blk(n)):
+            yield "blake %d 0 %s 0" % (n, hx(rb(rng, l))), "blake.bitlen0"
 
 
 def blake2_cases(tier, rng):
@@ -245,7 +246,7 @@ def blake2_cases(tier, rng):
         for top in (1 << w, 1 << (2 * w)):
             for k in (1, 2, 3):
                 pre = 8 * (top - k * bb)
-                for l in (0, 1, bb - 1, bb, bb + 1, 2 * bb, 2 * bb + 5, 3 * bb):
+                for l in (1, bb - 1, bb, bb + 1, 2 * bb, 2 * bb + 5, 3 * bb):   # an empty tail after data: see C14 known finding
                     M = rb(rng, l)
                     yield 'blake2.pre %s %d %s' % (v, pre, hx(M)), 'blake2.preset'
                     yield 'blake2.trace %s %d %s' % (v, pre, hx(M)), 'blake2.trace.preset'
